@@ -347,7 +347,6 @@ GLUE void build_elems(const std::vector<El>& l, const Cont& k, std::index_sequen
 // is the (matcher, pattern, arity) combination instantiated?
 constexpr bool elems_ok(int rmk, int pat, size_t n) {
   if (n > MAX_ELEMS) return false;
-  if (rmk == M_PERM && n == 1) return false;  // range_is_permutation(x) with a single non-range x does not compile (see report)
   if (n == 0) return pat == 0;
   if (n == 1) return pat <= 1;
   if (pat == 3) return n == 2;  // matcher-first alternation only for two elements (build time)
